@@ -87,16 +87,29 @@ func c02(r *ev.Result, tier string) {
 	/* Payload enumeration: each payload is entered once before the shell
 	attaches and once after, on every writer kind. */
 	n := 0
-	for _, pl := range c02Payloads(isQuick(tier)) {
+	payloads := c02Payloads(isQuick(tier))
+	/* Sizes around every power of two up to 1 MiB, entered the way Ctrl+I
+	enters its payload (through opshell.ChanWriter). */
+	nTyped := len(payloads)
+	for k := 10; k <= 20; k++ {
+		for _, d := range []int{-1, 0, 1} {
+			payloads = append(payloads, strings.Repeat("z", 1<<k+d))
+		}
+	}
+	for pi, pl := range payloads {
 		for wk := 0; wk < 4; wk++ {
+			if pi >= nTyped && 0 != wk%2 {
+				continue
+			}
 			p := &bworld.Profile{
-				Name:        "c02-payload",
-				OchCap:      1024,
-				Starts:      []bworld.StartSpec{{Kind: "in", Key: "k", WKind: wk, Max: 1}},
-				MaxAttempts: 1,
-				MaxLines:    3,
-				Oracles:     []string{"C02"},
-				LinePayload: pl,
+				ViaChanWriter: pi >= nTyped || 1 == pi%2,
+				Name:          "c02-payload",
+				OchCap:        1024,
+				Starts:        []bworld.StartSpec{{Kind: "in", Key: "k", WKind: wk, Max: 1}},
+				MaxAttempts:   1,
+				MaxLines:      3,
+				Oracles:       []string{"C02"},
+				LinePayload:   pl,
 			}
 			hist := []bworld.Event{
 				{Op: "line"}, {Op: "start", Spec: 0}, {Op: "admit", A: 0, Dir: "input"}, {Op: "line"}, {Op: "line"},
